@@ -316,6 +316,8 @@ pub fn corpora(tier: Tier) -> Vec<Corpus> {
             let dict = match k % 4 {
                 0 => vec!["c/D/E".to_string(), "a/Q".to_string()],
                 1 => vec!["zz/D".to_string()],
+                // dictionary-only tokens whose FIRST / MIDDLE category is absent while a later one is given
+                2 => vec!["e//G".to_string(), "f/H//I".to_string(), "ab//K".to_string()],
                 _ => vec![],
             };
             out.push(Corpus { name: format!("pair[{} | {}] dict={dict:?}", sents[i], sents[j]), lines: vec![(false, sents[i].clone()), (false, sents[j].clone()), filler.clone()], tag_dict: dict });
